@@ -314,7 +314,13 @@ def build(j, fns):
             else:
                 kw['skip'] = dec(sk['v'], fns)
         se = [exc_class(n) for n in j['skip_exc']]
-        if j['skip_exc'] != ['GlomError']:
+        form = j.get('se_form')
+        if form == 'tuple':
+            # always a tuple, whatever its length: skip_exc=() ("pass over no exception"), 1-tuples
+            kw['skip_exc'] = tuple(se)
+        elif form == 'class' and len(se) == 1:
+            kw['skip_exc'] = se[0]                      # the class itself, GlomError included
+        elif j['skip_exc'] != ['GlomError']:
             kw['skip_exc'] = tuple(se) if len(se) != 1 else se[0]
         return glom.Coalesce(*[B(x) for x in j['subs']], **kw)
     if k == 'call':
